@@ -1,8 +1,7 @@
 //@ tu: libxcm/core/xpoll.c
 //@ loops: xpoll.loops
 //@ enforce: xpoll_fd_reg_add
-//@ replace: find_fd
-//@ defs: -DXP_CAP_MAX=64
+//@ replace: find_fd allocate_fd_reg_idx
 //@ props: C04 C16 C08
 //@ expect: postcondition>=11 canary=5
 #include "_unit.h"
